@@ -12,14 +12,18 @@ META = {
              "holds when equality on the scan route is the canonical one, special paths are never hinted and only EQUAL/IN are "
              "hinted; refuted by closed witnesses otherwise), routes_agree (with paging after the whole predicate on both routes, "
              "labels re-attached and the ordering attribute checked, the two routes return the same items for every store and "
-             "query), closed witnesses for each currently false fact, and routes_agree_partial for the fragment that avoids them; "
+             "query), bucket_tracks_store / bucketRouteS_run (the stateful buckets serve what the specification says, after any "
+             "history of saves, deletes, reloads and build steps), closed witnesses for each currently false fact and for each "
+             "mutation kind that might not reach a bucket, and routes_agree_partial for the fragment that avoids them; "
              "classify_sound ties the decision to facts extracted from bucket_planner.go, bucket_exec.go, gateway.go, "
              "filter_native.go, filter.go and bucket.go."),
     "note": ("Trusted: Lean kernel; extract/c08.go; harness/c08.go (msgpack bodies are decoded by the real library and compared with "
              "the text the model reads). The ordered index read of the scan route is modelled by C07's Spec; for the four index types C08 uses "
              "(key, creation, update, expiration time) that is Hv.C07.holds_current_nonvalue on the current tree, and the run moves "
-             "timestamps by updates between queries so a stale index would show as a route disagreement. Assumed: the bucket's sequential "
-             "maintenance is its specification (exercised by the run); floats are k/4 with |k| small, integers below 2^53 (no NaN/Inf, "
+             "timestamps by updates between queries so a stale index would show as a route disagreement. The field bucket is modelled as "
+             "state (Hv/Query/Bucket.lean: lazy build over a snapshot, pending buffer, drain, OnInsert/OnUpdate/OnDelete) and "
+             "bucket_tracks_store proves it files exactly the live records under the canonical key of their current body after "
+             "every history, given the extracted notification facts; floats are k/4 with |k| small, integers below 2^53 (no NaN/Inf, "
              "no lossy int-float conversion); filters are body-field comparison / IN / emptiness legs; forcing the scan route by "
              "wrapping the filter as the single sub-group of an OR group (planOr bypasses on sub-groups; verified by extract)."),
     "design_ref": "§8 C08",
@@ -33,6 +37,12 @@ FINDINGS = {
     "C08-bucket-route-ignores-index-attribute": "ordered by a time index, the bucket route also returns records that do not carry that timestamp; the scan route (the index) does not contain them",
 }
 
+FINDINGS.update({
+    "C08-bucket-misses-insert": "SaveFunction does not tell the built field buckets about a new key: the accelerated route misses the record",
+    "C08-bucket-misses-update": "SaveFunction does not tell the built field buckets about a modified treasure: the accelerated route serves it under its old field value",
+    "C08-bucket-misses-delete": "deleteHandler does not tell the built field buckets: the accelerated route still serves the deleted treasure",
+    "C08-bucket-build-drops-pending": "mutations that arrive while a bucket build is in flight are not replayed by DrainPending",
+})
 FINDINGS["C08-window-on-key-index"] = ("with the key index and a time window the scan route ignores the window (findInKeyBeacon) while "
                                        "applyTimeRange filters the candidates by timestamp 0: FromTime > 0 empties the accelerated route")
 
@@ -43,15 +53,19 @@ class Shadow:
     def __init__(self):
         self.ts = {}
         self.texts = {}
+        self.queried = False            # a query ran in this case (a bucket may be built)
+        self.mutated_after_query = False
 
     def put(self, k, c, u, e, text):
         old = self.ts.get(k, (0, 0, 0))
         self.ts[k] = (c or old[0], u or old[1], e or old[2])
         self.texts[k] = text
+        self.mutated_after_query = self.mutated_after_query or self.queried
 
     def delete(self, k):
         self.ts.pop(k, None)
         self.texts.pop(k, None)
+        self.mutated_after_query = self.mutated_after_query or self.queried
 
     def attr(self, idx, key):
         if idx == "key":
@@ -93,6 +107,8 @@ def signature(fid, f, sh):
     if fid == "C08-scan-equality-not-canonical":
         # a float / time value in a body, a special float, or an integer beyond float64's exact range
         return any(re.search(r"[:,\[]f[-+N\d]|[:,\[]t\d|[iu]-?\d{16,}", t or "") for t in sh.texts.values())
+    if fid.startswith("C08-bucket-misses-") or fid == "C08-bucket-build-drops-pending":
+        return sh.mutated_after_query   # a bucket can only be stale about something that changed after it was built
     if fid == "C08-special-path-hinted":
         return "[*]" in filt or "#len" in filt
     if fid == "C08-paging-before-residual":
@@ -130,6 +146,8 @@ def judge(c):
                 mism.append(i)
             continue
         stats["queries"] += 1
+        if sh.mutated_after_query:
+            stats["after_mutation_of_built_bucket"] = stats.get("after_mutation_of_built_bucket", 0) + 1
         stats["by_index"][f[1] + "/" + f[2]] = stats["by_index"].get(f[1] + "/" + f[2], 0) + 1
         ri, rm = split_reply(impl), split_reply(model)
         if ri is None or rm is None:
@@ -164,6 +182,7 @@ def judge(c):
         elif flags and ok:
             unexplained.append((i, "model flags %s but the implementation's routes agree" % flags))
             c.flags[i] = []
+        sh.queried = True
     c.mismatch = mism
     return stats, unexplained
 
@@ -221,7 +240,7 @@ def run(ctx):
         rep.update({"correspondence": "C08", "oracle": why})
         ctx.violation("implementation violates the property (route agreement, not explained by any listed finding): " + why, rep, tag="oracle")
     if ctx.thorough:
-        ok, out = K.leanchecker(ctx, ["Hv.Props.C08", "Hv.Query.Lemmas", "Hv.Query.Routes", "Hv.Query.Filter", "Hv.Query.Value"])
+        ok, out = K.leanchecker(ctx, ["Hv.Props.C08", "Hv.Query.Lemmas", "Hv.Query.Bucket", "Hv.Query.Routes", "Hv.Query.Filter", "Hv.Query.Value"])
         ctx.cov["leanchecker"] = "ok" if ok else out[-500:]
         if not ok:
             ctx.violation("leanchecker rejected the compiled proofs", {"log": out[-2000:]}, tag="leanchecker", found_input=False)
